@@ -30,7 +30,17 @@ RULE = ("schema-first logical documents (nested objects, arrays, arrays of objec
         "are derived from the payloads x 5 entry points; oracle = the EXTRACTED TextDeEnum.spec_enum_fields, a Python reading on plain "
         "payloads, and a serde-derived enum as anchor of the interpreter.  typed_keys / keys_model: 1200 maps with u8..u64 / i8..i64 / bool / "
         "Date / DateHour / f64 / String / enum keys (valid, out of range, malformed) x 6 entry points incl. from_encoded_tape.  size_hints / "
-        "hints_model: 1000 sequences / maps visited by a visitor that records size_hint before every step")
+        "hints_model: 1000 sequences / maps visited by a visitor that records size_hint before every step.  "
+        # [s_c02]
+        "size_ladder / size_walk (props/C02_size.py): one size-like dimension at a time on an otherwise tiny document over the ladder "
+        "0 1 2 3 7 8 9 15 16 17 31 32 33 63 64 65 127 128 129 255 256 257 1023 1024 1025 4095 4096 4097 65533 65534 65535 65536 (cut where one case "
+        "would cost more than ~50 ms): fields of one struct, occurrences of one key (collected / last / refused), unknown fields (count, nesting depth, "
+        "byte length, kind of content, length x alignment in the 8-byte blocks of skip_container), sequence / tuple / map sizes, byte length of quoted and "
+        "unquoted values and keys under both encodings (ASCII, high bytes, escapes; length x offset of the quote), integer magnitudes at both ends of every "
+        "width x zero padding up to 65535 digits, fraction digits 1..22, token length x buffer size (exact fit, +1, +2, +7, +8, +9) x read schedule, the buffer "
+        "size itself, nesting depth of the target (struct / seq / map / Option up to 1025), white-space runs and comments, runs of ghost `{}`, header "
+        "components, object tails, absent Options, enum variants, position of the tokens relative to the start / end of the input, tokens that straddle the "
+        "32768-byte refill of the default buffer, size hints of long sequences / maps; expected value by construction")
 TRUSTED = ["walk_model: the extracted walks are fed the implementation's own tape (tt.parse) resp. reader tokens (tr.slice, chunking-independent by C07) of each text; Scalar::to_f64 is the extracted ScalarF64.to_f64_bits, the float casts of serde's visitors are the machine's (OCaml glue)",
            "serde's primitive Deserialize impls (u8..u64, i8..i64, f32, f64, bool, String, IgnoredAny) and serde-derive's code for "
            "jomini::text::Property<T> are used as they are (library behaviour, exercised not verified)",
@@ -47,7 +57,11 @@ TRUSTED = ["walk_model: the extracted walks are fed the implementation's own tap
            "ext_spec: the document GENERATOR and the Python renderer props/textdoc.render_with_gaps (checked byte for byte against the extracted "
            "TextDoc.render on every document), the shape generator props/C02_ext.py (a shape that does not fit is skipped: ERR:unfit), the buffer "
            "size bound (longest token + 2, at least 26).  hints: the expected visit of props/C02_hint.py (decimal meaning of [+-]digits within "
-           "i64 / u64, yes / no, the decoded text, raw bytes for bytes hints, f64 only on short decimals that are exact)"]
+           "i64 / u64, yes / no, the decoded text, raw bytes for bytes hints, f64 only on short decimals that are exact)",
+           # [s_c02]
+           "size_ladder: the expected values written down in props/C02_size.py (closed forms of the generated text) and its bound need_of on the buffer a "
+           "token needs (longest quoted token + quotes / unquoted token + 1 / comment + 2, measured on the unchanged reader); cases longer than 1500 bytes "
+           "are implementation + oracle only (no model run), counted as size_impl_only_cases"]
 ASSUMPTIONS = ["targets request maps as maps and sequences as sequences (`fits`): container shapes are only put on containers of the same kind; "
                "`any` only on scalars; the root target is a struct or map",
                "documents avoid the constructs that the *lexing* properties C01/C07 own and currently get wrong (findings A, D, E, F, J, K): "
@@ -227,6 +241,11 @@ def run(ctx):
     from props import demeth
     demeth.run_text(ctx)
     # <<< w_fwd
+
+    # >>> s_c02 (wave 6): size / boundary ladders, one size-like dimension at a time up to 65536 (props/C02_size.py, audit/C02.md "Size dimensions")
+    from props import C02_size
+    C02_size.run(ctx)
+    # <<< s_c02
 
     # scalar level: extracted Serde.text_scalar (typed hints with fall-back) against the real slice path
     from props import descalar
